@@ -57,7 +57,14 @@ func obsTags(o TextObs, texts []c17.PkgText) []string {
 		}
 	}
 	if o.Hung {
-		tags = append(tags, "hang")
+		switch {
+		case sourceHas(texts, "GRANT") && hasFieldSetCycle(texts):
+			tags = append(tags, "C16-F20:grant-column-lookup-explodes-on-field-set-cycle")
+		case includesTwice(texts):
+			tags = append(tags, "C16-F21:field-sets-included-along-many-paths-exponential")
+		default:
+			tags = append(tags, "hang")
+		}
 	}
 	if o.Stage == "died" {
 		tags = append(tags, "process-died")
@@ -68,6 +75,8 @@ func obsTags(o TextObs, texts []c17.PkgText) []string {
 			tags = append(tags, "C16-F6:view-without-partition-key-refused-by-build") // fixed 55541a167: a regression
 		case strings.Contains(o.Err, "ACL filter") && strings.Contains(o.Err, "has no matches"):
 			tags = append(tags, "C16-F7:grant-matching-nothing-refused-by-build") // fixed 510061369: a regression
+		case strings.Contains(o.Err, "reference field") && strings.Contains(o.Err, "to unknown table") && strings.Contains(o.Err, "sys.BLOB"):
+			tags = append(tags, "C16-F23:blob-field-without-sys-blob-refused-by-build")
 		case strings.Contains(o.Err, "parameter type") && strings.Contains(o.Err, "should be") || strings.Contains(o.Err, "result type") && strings.Contains(o.Err, "should be"):
 			tags = append(tags, "C16-F12:function-parameter-kind-refused-by-build") // fixed fc0be6878: a regression
 		case strings.Contains(o.Err, "expected exactly 5 fields") && strings.Contains(o.Err, "cron schedule"):
@@ -108,6 +117,9 @@ func obsTags(o TextObs, texts []c17.PkgText) []string {
 	}
 	if !o.Deterministic && strings.Contains(o.NonDet, " vs ") && !hasFieldSetCycle(texts) && sourceHasRe(texts, fieldSetRe) {
 		tags = append(tags, "C16-F5b:false-field-set-cycle") // fixed 243abdcb2: a regression
+	}
+	if !o.Deterministic && strings.Contains(o.NonDet, "definitions differ") && sourceHas(texts, "Comment=") {
+		tags = append(tags, "C16-F22:nested-table-comment-depends-on-build-order")
 	}
 	if !o.Deterministic {
 		if o.RuleOrder {
@@ -194,6 +206,12 @@ func genText(name string) []c17.PkgText {
 		if k, err := strconv.Atoi(name[16:]); err == nil {
 			return withSys([]c17.PkgText{{Path: "github.com/verif/app1", Files: []string{
 				"APPLICATION app1(); WORKSPACE W ( TABLE T INHERITS sys.CDoc (a int32 CHECK (" + strings.Repeat("(", k) + "a" + strings.Repeat(")", k) + " > 0)); );"}}})
+		}
+		return nil
+	}
+	if f := strings.Split(name, ":"); len(f) == 3 && f[0] == "doubling" { // doubling:<levels>:<types|table|unique|grant>
+		if k, err := strconv.Atoi(f[1]); err == nil {
+			return doublingFieldSets(k, f[2])
 		}
 		return nil
 	}
@@ -508,4 +526,20 @@ func controlTags(o TextObs, texts []c17.PkgText) []string {
 		tags = append(tags, "C17-F39:projector-on-inherited-nested-table-of-another-package-refused")
 	}
 	return tags
+}
+
+// a TYPE that includes one TYPE twice
+var doublingRe = regexp.MustCompile(`TYPE\s+\w+\s*\(\s*(\w+)\s*,\s*(\w+)\s*\)`)
+
+func includesTwice(texts []c17.PkgText) bool {
+	for _, p := range texts[1:] {
+		for _, f := range p.Files {
+			for _, m := range doublingRe.FindAllStringSubmatch(f, -1) {
+				if m[1] == m[2] {
+					return true
+				}
+			}
+		}
+	}
+	return false
 }
